@@ -49,33 +49,37 @@ def rule_bytes(repo, rule):
             e = c.args[0]
             fors = enclosing_fors(c)
             problems = []
-            # (V >> (j*8)) & 255
-            mt = re.match(r"^(.+) >> (\w+) \* 8 & 255$", norm(e)) or re.match(r"^(.+) >> 8 \* (\w+) & 255$", norm(e))
-            if not mt:
+            # (V >> (j*8)) & 255, with V and the loops resolved to the sequences they stand for (sa/seqs.py): the loop
+            # variables are replaced by the element of the base collection, however the iteration is written
+            from ..seqs import resolve_at
+            from ..flatten import resolve_locals as _rl11
+            er, loops = resolve_at(fi.node, c, e)
+            er = _rl11(fi.node, er)
+            ok_shape = isinstance(er, ast.BinOp) and ((isinstance(er.op, ast.BitAnd) and norm(er.right) in ("255", "0xff"))
+                                                      or (isinstance(er.op, ast.Mod) and norm(er.right) == "256")) \
+                and isinstance(er.left, ast.BinOp) and isinstance(er.left.op, ast.RShift)
+            j = None
+            if ok_shape:
+                mt = re.match(r"^(\w+) \* 8$|^8 \* (\w+)$|^(\w+) << 3$", norm(er.left.right))
+                j = next((g for g in mt.groups() if g), None) if mt else None
+            if not ok_shape or j is None:
                 rule.violation(where, fi.fq, norm(e), "byte is not extracted as (v >> 8*j) & 255", "%s/extract" % fi.qual)
                 continue
-            vtxt, j = mt.group(1).strip("()"), mt.group(2)
+            V = er.left.left
+            vtxt = norm(e.left.left) if isinstance(e, ast.BinOp) and isinstance(e.left, ast.BinOp) else norm(V)
             jloop = [f for f in fors if norm(f.target) == j]
-            if not jloop or norm(jloop[0].iter) != "reversed(range(BL))":
+            if not jloop or norm(jloop[0].iter) not in ("reversed(range(BL))", "range(BL - 1, -1, -1)"):
                 problems.append("byte loop is `%s`, expected reversed(range(BL)) (back-to-front builder => little-endian, "
                                 "exactly BL bytes)" % (norm(jloop[0].iter) if jloop else "?"))
             # value provenance
-            vdef = None
-            if vtxt == "modulus - 1":
-                vdef = "modulus - 1"
-            else:
-                for a in ast.walk(fi.node):
-                    if isinstance(a, ast.Assign) and norm(a.targets[0]) == vtxt:
-                        vdef = norm(a.value)
-                if vdef is None:
-                    vdef = vtxt
-            if not (vdef == "modulus - 1" or vdef.endswith("% modulus")):
+            vdef = norm(V)
+            if not (vdef == "modulus - 1" or (isinstance(V, ast.BinOp) and isinstance(V.op, ast.Mod) and norm(V.right) == "modulus")):
                 problems.append("value `%s` is not reduced modulo the field prime" % vdef)
-            outer = [f for f in fors if f not in jloop]
+            outer = [(f, s_) for f, s_ in loops if f not in jloop]
             if outer:
-                it = norm(outer[0].iter)
-                if not (re.match(r"^reversed\(range\(len\(\w+\)\)\)$", it) or re.match(r"^reversed\(\w+\)$", it)):
-                    problems.append("element loop `%s` is not reversed(...) (back-to-front builder)" % it)
+                f0, s0 = outer[0]
+                if s0 is None or not s0.rev:
+                    problems.append("element loop `%s` is not reversed(...) (back-to-front builder)" % norm(f0.iter))
             term = "PrependByte(%s) with %s = %s, loops %s" % (norm(e), vtxt, vdef, [norm(f.iter) for f in fors])
             if problems:
                 rule.violation(where, fi.fq, term, "; ".join(problems), "%s/bytes/%s" % (fi.qual, vtxt))
@@ -133,7 +137,13 @@ def index_map(expr, key, negative):
     if not (isinstance(t, ast.Compare) and len(t.ops) == 1 and norm(t.comparators[0]) == "0"):
         return None
     var = norm(t.left)
-    if isinstance(t.ops[0], ast.GtE):
+    if isinstance(t.ops[0], ast.Gt) and norm(expr.body) == var:
+        # `x if x > 0 else P - x`: key 0 takes the other branch
+        zero = poly_of(expr.orelse, {var: P(), "len(pubvals)": P.sym("P"), "len(privvals)": P.sym("W")}, strict=True)
+        if key == P():
+            return zero
+        pos, neg = expr.body, expr.orelse
+    elif isinstance(t.ops[0], ast.GtE):
         pos, neg = expr.body, expr.orelse
     elif isinstance(t.ops[0], ast.Lt):
         pos, neg = expr.orelse, expr.body
@@ -151,10 +161,20 @@ def rule_ids(repo, rule):
     ids = [c for c in ast.walk(wv.node) if isinstance(c, ast.Call) and norm(c.func).endswith(".PrependUint64")]
     idpoly = None
     if ids and offp:
-        fors = enclosing_fors(ids[0])
-        iv = norm(fors[0].target) if fors else None
-        # i ranges over 0..len-1  => the k-th element (1-based) has i = k-1
-        idpoly = poly_of(ids[0].args[0], {iv: k - 1, offp: P.sym("off")}, strict=True) if iv else None
+        from ..seqs import resolve_at
+        # the index of the element loop (however it is written) ranges over 0..len-1  => the k-th element (1-based) has index k-1
+        idr, idloops = resolve_at(wv.node, ids[0], ids[0].args[0])
+        idpoly = poly_of(idr, {"__i0": k - 1, offp: P.sym("off")}, strict=True) if idloops else None
+        vloops = [resolve_at(wv.node, c_, c_.args[0])[1] for c_ in ast.walk(wv.node)
+                  if isinstance(c_, ast.Call) and norm(c_.func).endswith(".PrependByte") and c_.args]
+        if idloops and vloops and vloops[0] and idloops[0][1] is not None and vloops[0][0][1] is not None:
+            a_, b_ = idloops[0][1], vloops[0][0][1]
+            if (a_.base, a_.rev) == (b_.base, b_.rev):
+                rule.ok(wv.loc(ids[0]), wv.fq, "ids and values are written over `%s` in the same order" % a_.base)
+            else:
+                rule.violation(wv.loc(ids[0]), wv.fq, "ids over %s%s, values over %s%s" % (a_.base, " reversed" if a_.rev else "", b_.base,
+                               " reversed" if b_.rev else ""), "variable ids and their values are written in different orders",
+                               "ids/order/%s" % wv.name)
     if idpoly is None:
         rule.undecided(wv.loc(), wv.fq, "variable id expression", "not interpretable")
         return
@@ -196,11 +216,31 @@ def rule_ids(repo, rule):
     # constraint writer's map vs allocator
     wc = repo.fn(ZB, "write_constraints")
     im = None
-    from ..flatten import helper_closure
+    im_at = None
+    from ..flatten import helper_closure, resolve_locals as _rl11
+    from ..seqs import resolve_at
     for f_ in helper_closure(repo, wc):
         for n in ast.walk(f_.node):
-            if isinstance(n, ast.IfExp) and "len(pubvals)" in norm(n):
-                im = n
+            if isinstance(n, ast.Call) and norm(n.func).endswith(".PrependUint64") and n.args and im is None:
+                # the id written for one term of a linear combination, as a function of the term's key
+                owners = [p_ for p_ in parents(n) if isinstance(p_, ast.FunctionDef)]
+                own_ = owners[0] if owners else f_.node
+                er, lps = resolve_at(own_, n, n.args[0])
+                for g_ in owners:
+                    er = _rl11(g_, er)
+                if isinstance(er, ast.IfExp) and lps and lps[0][1] is not None:
+                    im, im_at = er, n
+                    vl = [resolve_at(own_, c_, c_.args[0])[1] for c_ in ast.walk(own_)
+                          if isinstance(c_, ast.Call) and norm(c_.func).endswith(".PrependByte") and c_.args]
+                    if vl and vl[0] and vl[0][0][1] is not None:
+                        a_, b_ = lps[0][1], vl[0][0][1]
+                        if (a_.base, a_.rev) == (b_.base, b_.rev):
+                            rule.ok(f_.loc(n), f_.fq, "term ids and coefficients are written over `%s` in the same order" % a_.base)
+                        else:
+                            rule.violation(f_.loc(n), f_.fq, "ids over %s%s, coefficients over %s%s" % (
+                                a_.base, " reversed" if a_.rev else "", b_.base, " reversed" if b_.rev else ""),
+                                "the variable ids of a linear combination and its coefficients are written in different orders",
+                                "ids/order/%s" % f_.name)
     kp = alloc_key(m, "pubval", "pubvals")
     kv = alloc_key(m, "privval", "privvals")
     if im is None or kp is None or kv is None:
@@ -219,6 +259,53 @@ def rule_ids(repo, rule):
         rule.ok(wc.loc(im), wc.fq, "key 0 (constant one) -> variable id 0")
     else:
         rule.violation(wc.loc(im), wc.fq, "key 0 -> %s" % one, "constant-one wire is not variable 0", "ids/one")
+
+
+def never_none(m, name):
+    """a module-level name every binding of which (at module level, or in a function declaring it global) is a list / dict /
+    tuple display or a call: `name is None` is false whenever it is evaluated"""
+    vals = []
+    for n in ast.walk(m.tree):
+        if isinstance(n, (ast.Assign, ast.AugAssign, ast.AnnAssign)):
+            tgs = n.targets if isinstance(n, ast.Assign) else [n.target]
+            for t in tgs:
+                for x in ast.walk(t):
+                    if isinstance(x, ast.Name) and x.id == name and not isinstance(x.ctx, ast.Load):
+                        fn = [p for p in parents(n) if isinstance(p, (ast.FunctionDef, ast.Lambda))]
+                        if fn and not any(isinstance(g, ast.Global) and name in g.names for g in ast.walk(fn[0])):
+                            continue        # a local of that function
+                        vals.append(n.value if not isinstance(n, ast.AugAssign) else ast.List(elts=[], ctx=ast.Load()))
+        elif isinstance(n, (ast.For, ast.comprehension, ast.With, ast.NamedExpr, ast.Delete, ast.Import, ast.ImportFrom)):
+            if any(isinstance(x, ast.Name) and x.id == name and not isinstance(x.ctx, ast.Load) for x in ast.walk(n)
+                   if not isinstance(x, (ast.FunctionDef,))) and not any(isinstance(p, (ast.FunctionDef, ast.Lambda)) for p in parents(n)):
+                return False
+    return bool(vals) and all(isinstance(v, (ast.List, ast.Dict, ast.Tuple, ast.Set, ast.ListComp, ast.DictComp)) or (
+        isinstance(v, ast.Constant) and v.value is not None) for v in vals)
+
+
+def static_truth(test, m):
+    """True / False when the test has the same outcome on every run, else None"""
+    if isinstance(test, ast.UnaryOp) and isinstance(test.op, ast.Not):
+        v = static_truth(test.operand, m)
+        return None if v is None else not v
+    if isinstance(test, ast.BoolOp):
+        vs = [static_truth(v, m) for v in test.values]
+        if isinstance(test.op, ast.And):
+            return False if any(v is False for v in vs) else (True if all(v is True for v in vs) else None)
+        return True if any(v is True for v in vs) else (False if all(v is False for v in vs) else None)
+    if isinstance(test, ast.Constant):
+        return bool(test.value)
+    if isinstance(test, ast.Compare) and len(test.ops) == 1 and isinstance(test.ops[0], (ast.Is, ast.IsNot)):
+        a, b = test.left, test.comparators[0]
+        if isinstance(b, ast.Constant) and b.value is None:
+            isnone = None
+            if isinstance(a, ast.Constant):
+                isnone = a.value is None
+            elif isinstance(a, ast.Name) and never_none(m, a.id):
+                isnone = False
+            if isnone is not None:
+                return isnone if isinstance(test.ops[0], ast.Is) else not isnone
+    return None
 
 
 def rule_messages(repo, rule):
@@ -249,8 +336,14 @@ def rule_messages(repo, rule):
                 elif cur and f == "%s.close" % cur[0]:
                     cur = None
             elif isinstance(s, ast.If):
-                collect(s.body, cur, conds + [norm(s.test)])
-                collect(s.orelse, cur, conds + ["not (%s)" % norm(s.test)])
+                st = static_truth(s.test, m)
+                if st is True:
+                    cur = collect(s.body, cur, conds)
+                elif st is False:
+                    cur = collect(s.orelse, cur, conds)
+                else:
+                    collect(s.body, cur, conds + [norm(s.test)])
+                    collect(s.orelse, cur, conds + ["not (%s)" % norm(s.test)])
             elif isinstance(s, (ast.Try, ast.For, ast.While)):
                 rule.undecided(pr.loc(s), pr.fq, norm(s)[:80], "statement in prove() not interpretable")
         return cur
@@ -388,6 +481,23 @@ def rule_schema(repo, rule):
     # A/B/C: on the source as written (helpers not inlined): in the function that fills a BilinearConstraint, the values given
     # to AddLinearCombinationA/B/C are the results of ONE linear-combination writer applied to parts 0, 1, 2 of ONE constraint
     pristine = ast.parse(repo.module(ZB).src)
+    # table-driven form: `for add, lc in zip((AddA, AddB, AddC), lcs): add(builder, lc)` is written out first (loops over
+    # short literal tables are unrolled; nothing else is rewritten)
+    from ..flatten import _unroll_for
+    for n_ in ast.walk(pristine):
+        for c_ in ast.iter_child_nodes(n_):
+            c_._parent = n_
+    for fn_ in [x for x in ast.walk(pristine) if isinstance(x, ast.FunctionDef)]:
+        fn_._closure_parents = [p_ for p_ in parents(fn_) if isinstance(p_, ast.FunctionDef)]
+        for hold_ in ast.walk(fn_):
+            for fld_ in ("body", "orelse"):
+                lst_ = getattr(hold_, fld_, None)
+                if isinstance(lst_, list) and any(isinstance(s_, ast.For) for s_ in lst_):
+                    new_ = []
+                    for s_ in lst_:
+                        rep_ = _unroll_for(s_, fn_) if isinstance(s_, ast.For) else None
+                        new_.extend(rep_ if rep_ is not None else [s_])
+                    lst_[:] = new_
     holder = None
     for fn_ in ast.walk(pristine):
         if isinstance(fn_, ast.FunctionDef):
@@ -402,6 +512,15 @@ def rule_schema(repo, rule):
         for a_ in ast.walk(fn_):
             if isinstance(a_, ast.Assign) and len(a_.targets) == 1 and isinstance(a_.targets[0], ast.Name) and isinstance(a_.value, ast.Call):
                 defs.setdefault(a_.targets[0].id, []).append(a_.value)
+        compdefs = {}
+        for a_ in ast.walk(fn_):
+            if isinstance(a_, ast.Assign) and len(a_.targets) == 1 and isinstance(a_.targets[0], ast.Name) and isinstance(a_.value, ast.ListComp):
+                compdefs.setdefault(a_.targets[0].id, []).append(a_.value)
+        stores_ = {}
+        for x_ in ast.walk(fn_):
+            if isinstance(x_, ast.Name) and not isinstance(x_.ctx, ast.Load):
+                stores_[x_.id] = stores_.get(x_.id, 0) + 1
+        compdefs = {k_: v_ for k_, v_ in compdefs.items() if stores_.get(k_) == 1}
         got = []
         for c in own:
             letter = norm(c.func)[-1]
@@ -410,7 +529,15 @@ def rule_schema(repo, rule):
             if isinstance(v, ast.Name) and len(defs.get(v.id, [])) == 1:
                 src = defs[v.id][0]
             part = None
-            if isinstance(src, ast.Call):
+            if isinstance(v, ast.Subscript) and isinstance(v.value, ast.Name) and isinstance(v.slice, ast.Constant) \
+                    and len(compdefs.get(v.value.id, [])) == 1:
+                # lcs[i] with lcs = [W(t) for t in S]  is  W(S[i])
+                comp = compdefs[v.value.id][0]
+                g_ = comp.generators[0]
+                if len(comp.generators) == 1 and not g_.ifs and isinstance(g_.target, ast.Name) and isinstance(comp.elt, ast.Call) \
+                        and [norm(a_) for a_ in comp.elt.args] == [g_.target.id] and not comp.elt.keywords:
+                    part = (norm(comp.elt.func), norm(g_.iter), v.slice.value)
+            if part is None and isinstance(src, ast.Call):
                 subs = [a_ for a_ in src.args if isinstance(a_, ast.Subscript) and isinstance(a_.slice, ast.Constant)]
                 if len(subs) == 1:
                     part = (norm(src.func), norm(subs[0].value), subs[0].slice.value)
